@@ -177,7 +177,8 @@ namespace GeographicLib {
       int i = Utility::lookup(digits_, mgrs[p]);
       if (i < 0)
         break;
-      zone1 = 10 * zone1 + i;
+      if (p < 3)                // avoid overflow; p > 2 is an error anyway
+        zone1 = 10 * zone1 + i;
       ++p;
     }
     if (p > 0 && !(zone1 >= UTMUPS::MINUTMZONE && zone1 <= UTMUPS::MAXUTMZONE))
